@@ -30,6 +30,11 @@ void harness(void) {
 	int res = run(ctx, out, sizeof(out), &ol, &a, &b, &c);
 	C19_DISARM();
 	C19_OUTCOME(res, ol == 6 && out[0] == 0x01 && out[1] == 0x04 && out[2] == 0x42 && out[3] == 0x02);
+	/* the involved objects must remain usable after the failed call (faults disarmed) */
+	if (a != NULL) { u8 o2[16]; size_t l2 = 0; int r2 = KSI_TLV_serialize_ex(a, o2, sizeof(o2), &l2);
+		CHECK(r2 == KSI_OK && (l2 == 2 || l2 == 6) && o2[0] == 0x01 && o2[1] == l2 - 2, "C19.H2 a tree that saw a failed allocation still serialises to a well-formed element"); }
+	if (b != NULL) { KSI_LIST(KSI_TLV) *l3 = NULL; int r3 = KSI_TLV_getNestedList(b, &l3);
+		CHECK(r3 == KSI_OK && KSI_TLVList_length(l3) == 1, "C19.H2 a parsed element that saw a failed expansion can still be expanded"); }
 	KSI_TLV_free(a); KSI_TLV_free(b); KSI_TLV_free(c);
 	a = b = c = NULL; ol = 0;
 	res = run(ctx, out, sizeof(out), &ol, &a, &b, &c);
